@@ -653,8 +653,10 @@ def check(run):
                            "boundary and at offsets inside every record kind (all interior offsets of SEP/SAVEPOINT/RESET records, "
                            "header edges and the last 21 bytes of the others); single-bit flips; every log is also recovered by processes "
                            "opened with the other log-buffer size and/or the other checksum setting (uncut, every savepoint end, "
-                           "sampled cuts; distribution key recovery_cross_config); a case = (history, writer's options, "
-                           "cut, flips, recovering options); distinct = distinct case text",
+                           "sampled cuts; distribution key recovery_cross_config); logs with a reset mark, also behind a RESIZE record "
+                           "(growth during an online backup), and the same log inside a backup image (recover_mode 2); with checksums: the two "
+                           "multi-byte corruptions that C05_flip_in_segment names as escapes (stored checksum zeroed, planted reset mark); "
+                           "a case = (history, writer's options, cut, flips, recovering options); distinct = distinct case text",
                       assumptions=["bytes read past the end of the log file (C over-read inside the last mapped page) are modelled as 0",
                                    "kill model: what write(2) returned is durable; power-loss reordering is outside the property"])
 
